@@ -98,7 +98,25 @@ impl Sink {
         self.buf.clear();
     }
     fn drain_io(&mut self) {
+        // a short write that the caller continues (write_all) is ONE page image in two calls:
+        // it is presented as the single write it amounts to
+        let mut ios: Vec<Io> = Vec::new();
         for io in iohook::drain() {
+            if let (Some(Io::Write { off: poff, data: pdata, short: true, flen_before: pfb, .. }),
+                    Io::Write { off, data, flen_after, short, .. }) = (ios.last(), &io)
+            {
+                if *poff + pdata.len() as u64 == *off {
+                    let mut joined = pdata.clone();
+                    joined.extend_from_slice(data);
+                    let merged = Io::Write { off: *poff, data: joined, flen_after: *flen_after, flen_before: *pfb, short: *short };
+                    ios.pop();
+                    ios.push(merged);
+                    continue;
+                }
+            }
+            ios.push(io);
+        }
+        for io in ios {
             if self.keep_raw {
                 self.raw.push(io.clone());
             }
